@@ -226,7 +226,9 @@ def run(ctx):
                 "fact_map_built_fields_sorted", "fact_writer_has_no_map_range", "fact_conflicted_flag_read_unconditionally",
                 "fact_before_order", "fact_equal_by_ref", "fact_event_fields_persisted", "fact_metadata_fields_persisted",
                 "fact_store_in_memory_state", "fact_cache_touch", "fact_version_keys", "fact_copied_conditions",
-                "fact_modelled_source_unchanged", "fact_store_wiring", "deactivated_resolves_active_by_time_witness"]
+                "fact_modelled_source_unchanged", "fact_store_wiring", "deactivated_resolves_active_by_time_witness",
+                "fact_add_commits_index_before_event_transaction", "two_tx_add_needs_no_read_your_writes",
+                "two_tx_add_order_independent_on_committed_reads", "one_tx_add_order_dependent_witness"]
     for r in required:
         if not any(t.endswith("Props." + r) for t in thms):
             ctx.oblige("thm-present:" + r, False, "theorem missing or its module does not build")
@@ -240,6 +242,8 @@ def run(ctx):
     ctx.assumptions += [
         "a transaction ref identifies the transaction (RefFun) and a payload hash identifies the document (content addressing)",
         "documents of one arrival set share no (ref) with different content; bbolt write transactions are atomic and serialised (WithWriteLock)",
+        "NOT assumed: that a write transaction reads its own uncommitted writes (two_tx_add_needs_no_read_your_writes; every 5th sequence and the corpus "
+        "run on go-stoabs redis7/miniredis, where it does not)",
         "an Add that returned an error is delivered again (the DAG notifier retries); every document of a DID's transactions carries that DID as its id",
         "no DID string is another DID string followed by decimal digits (metadata keys are DID+version without separator; did:nuts ids are fixed-alphabet hashes of the creating key)",
     ]
@@ -303,6 +307,8 @@ def run(ctx):
                 feats["with-restart-mid-sequence"] += 1
             if any(e["time"] % 1000000000 for e in op["events"]):
                 feats["sub-second-times"] += 1
+            if op.get("backend") == "redis":
+                feats["backend=redis(no read-your-writes inside a write tx)"] += 1
             if any(c > 100 for c in fl):
                 feats["with-failing-shelf-operation"] += 1
             seen_ct = set()
@@ -412,7 +418,8 @@ def run(ctx):
                        "clock/time ties incl. ties below the second, republished identical documents, prevs naming foreign / unseen transactions, "
                        "shared service ids with different content), all permutations for <=5 events (capped) else random permutations, duplicates inserted "
                        "anywhere, Adds with an injected storage failure (first write tx, between the two, second rolled back, k-th shelf operation) followed "
-                       "by re-delivery, restarts mid-sequence; each sequence applied to a fresh real store (bbolt), observed through Resolve(nil / {} / "
+                       "by re-delivery, restarts mid-sequence; each sequence applied to a fresh real store — bbolt, or (every 5th sequence, every 2nd for <=4 events, "
+                       "and the whole corpus) go-stoabs redis7 on miniredis, whose write transactions do not see their own writes — observed through Resolve(nil / {} / "
                        "allowDeactivated / every event time and time-1ns / every payload hash / every source tx / random hash x time x source-tx x "
                        "allow-deactivated combinations / unknown values), ConflictedCount, DocumentCount, Conflicted() entries, Iterate() order + entries, "
                        "Finder.Find(IsActive), HistorySinceVersion(0..n+1), unknown DID; then the cache-dependent part again after re-opening the store. "
